@@ -143,6 +143,20 @@ def _structure_twin(rng, prob):
     return q
 
 
+def _format_swap_twin(rng, prob):
+    cf = dict(_canon_formats(prob))
+    names = list(prob["inputs"].keys())
+    pairs = [(a, b) for i, a in enumerate(names) for b in names[i + 1:]
+             if len(prob["inputs"][a]) == len(prob["inputs"][b]) and cf[a] != cf[b]]
+    if not pairs:
+        return None
+    a, b = rng.choice(pairs)
+    q = copy.deepcopy(prob)
+    q["formats"] = dict(cf)
+    q["formats"][a], q["formats"][b] = cf[b], cf[a]
+    return q
+
+
 def _operator_twin(rng, prob):
     import re
 
@@ -199,6 +213,12 @@ def gen_plan(seed, cfg):
             stw = _structure_twin(rng, prob)
             if stw is not None:
                 pool.append(stw)
+        # the formats of two inputs of equal order exchanged (a different problem whose format TUPLE is
+        # a permutation of the seed's: seeded change E-C15-1 keyed a front memo by the formats in call
+        # order without the names)
+        sw = _format_swap_twin(rng, prob)
+        if sw is not None and rng.random() < 0.4:
+            pool.append(sw)
         # near-duplicates that must NOT share a cached kernel
         r = rng.random()
         if r < 0.3:
@@ -353,8 +373,11 @@ def _concretise(rng, b, canonical=False):
                 "backend": b["backend"], "prob": b["prob"], "key": b["key"],
                 "canon_order": [x[0] for x in b["formats"]]}
     if b["kind"] == "eval":
+        items = list(b["inputs"].items())
+        if not canonical:
+            rng.shuffle(items)  # keyword arguments in another order are the same request
         return {"kind": "eval", "assignment": b["assignment"], "out_format": b["out_format"],
-                "inputs": b["inputs"], "backend": b["backend"], "key": b["key"]}
+                "inputs": dict(items), "backend": b["backend"], "key": b["key"]}
     raise ValueError(b["kind"])
 
 
